@@ -417,19 +417,19 @@ class AhocorasickTokenizer(Tokenizer):
         """Set up helpers to narrow down possible extractors."""
         # Build a set of all extractors that don't list required strings
         self.unfiltered_extractors = set(
-            e for e in EXTRACTORS if not e.strings
+            e for e in self.extractors if not e.strings
         )
         # Build a pyahocorasick filter for all case-sensitive extractors
         self.case_sensitive_filter = self.make_ahocorasick_filter(
             (s, e)
-            for e in EXTRACTORS
+            for e in self.extractors
             if e.strings and not e.flags & re.I
             for s in e.strings
         )
         # Build a pyahocorasick filter for all case-insensitive extractors
         self.case_insensitive_filter = self.make_ahocorasick_filter(
             (s.lower(), e)
-            for e in EXTRACTORS
+            for e in self.extractors
             if e.strings and e.flags & re.I
             for s in e.strings
         )
@@ -438,10 +438,15 @@ class AhocorasickTokenizer(Tokenizer):
         """Override get_extractors() to filter out extractors
         that can't possibly match."""
         unique_extractors = set(self.unfiltered_extractors)
-        for _, extractors in self.case_sensitive_filter.iter(text):
-            unique_extractors.update(extractors)
-        for _, extractors in self.case_insensitive_filter.iter(text.lower()):
-            unique_extractors.update(extractors)
+        # (an automaton without any word cannot be searched)
+        if len(self.case_sensitive_filter):
+            for _, extractors in self.case_sensitive_filter.iter(text):
+                unique_extractors.update(extractors)
+        if len(self.case_insensitive_filter):
+            for _, extractors in self.case_insensitive_filter.iter(
+                text.lower()
+            ):
+                unique_extractors.update(extractors)
         return unique_extractors
 
     @staticmethod
